@@ -261,6 +261,8 @@ type schedResult struct {
 	// client scenarios: the log in the line format of the Lean driver mode `cfine` (does the interleaving model explain it?)
 	Log  []string `json:"log,omitempty"`
 	Idle bool     `json:"idle,omitempty"`
+	// server scenarios: the events of each client, for the driver mode `sfine` (per-client projection of the server dispatcher)
+	SLogs map[string][]string `json:"slogs,omitempty"`
 }
 
 func runScenario(sc scenario, stallSite string, stallIdx int) schedResult {
@@ -457,6 +459,19 @@ func runScenario(sc scenario, stallSite string, stallIdx int) schedResult {
 			}
 		}
 		res.Idle = !(wedged || len(stuck) > 0 || !quiet)
+	} else {
+		res.SLogs = map[string][]string{}
+		for _, e := range evs {
+			if e.client == "" {
+				continue
+			}
+			if e.id != "" {
+				res.SLogs[e.client] = append(res.SLogs[e.client], e.kind+" "+e.id)
+			} else {
+				res.SLogs[e.client] = append(res.SLogs[e.client], e.kind)
+			}
+		}
+		res.Idle = !(wedged || len(stuck) > 0 || !quiet) && idle()
 	}
 	if os.Getenv("SCHED_DEBUG") != "" {
 		for _, e := range evs {
@@ -639,14 +654,31 @@ func init() {
 			Log  []string `json:"log"`
 		}
 		var logs []clog
+		var slogs []clog
 		for kk, r := range results {
+			f := strings.Split(allRuns[kk], "|")
+			var sc int
+			fmt.Sscan(f[0], &sc)
 			if len(r.Log) > 0 {
-				f := strings.Split(allRuns[kk], "|")
-				var sc int
-				fmt.Sscan(f[0], &sc)
 				logs = append(logs, clog{Run: scenarios[sc].name + "|" + f[1] + "|" + f[2], Idle: r.Idle, Log: r.Log})
 			}
+			var cs []string
+			for c := range r.SLogs {
+				cs = append(cs, c)
+			}
+			sort.Strings(cs)
+			for _, c := range cs {
+				slogs = append(slogs, clog{Run: scenarios[sc].name + "|" + f[1] + "|" + f[2] + "|" + c, Idle: r.Idle, Log: r.SLogs[c]})
+			}
 		}
+		if b, err := json.Marshal(slogs); err == nil {
+			lp := os.Getenv("FINE_LOG_PATH")
+			if lp == "" {
+				lp = verifRoot() + "/gen/sched_client_logs.json"
+			}
+			_ = os.WriteFile(strings.Replace(lp, "client_logs", "server_logs", 1), b, 0o644)
+		}
+		rep.Stats["server_logs_written"] = len(slogs)
 		if b, err := json.Marshal(logs); err == nil {
 			lp := os.Getenv("FINE_LOG_PATH")
 			if lp == "" {
